@@ -195,6 +195,9 @@ def gen_api_history(seed, nops=30, malformed=0.25, with_io=None, caller_mut=0.0,
                 # mutate / re-submit the caller's object
                 if pn: L.append("cmut %s pt %d %s %s %s %s" % (v, r.randrange(len(pn)), g.fbits(), g.fbits(), g.fbits(), g.fbits()))
                 if ns and cn_eff and r.random() < 0.5: L.append("cmut %s ch %d %d %s" % (v, r.randrange(ns), r.randrange(len(cn_eff)), g.fbits()))
+                # writes through the BY-NAME accessors (a container that shares storage between copies must detach on these too)
+                if ns and cn_eff and r.random() < 0.5: L.append("cmut %s chn %d %s %s" % (v, r.randrange(ns), xhex(r.choice(cn_eff).rstrip(b" ")), g.fbits()))
+                if pn and r.random() < 0.3: L.append("cmut %s ptn %s %s" % (v, xhex(r.choice(pn).rstrip(b" ")), g.fbits()))
                 L.append("dump")
                 if r.random() < 0.6:
                     L.append("frame %s" % v)
@@ -204,6 +207,8 @@ def gen_api_history(seed, nops=30, malformed=0.25, with_io=None, caller_mut=0.0,
                 if S.frames and r.random() < 0.6:
                     fi = r.randrange(len(S.frames))
                     if S.frames[fi][0]: L.append("smut %d pt %d %s %s %s %s" % (fi, r.randrange(S.frames[fi][0]), g.fbits(), g.fbits(), g.fbits(), g.fbits()))
+                    if S.frames[fi][1] and S.chs and r.random() < 0.6: L.append("smut %d chn %d %s %s" % (fi, r.randrange(S.frames[fi][1]), xhex(r.choice(S.chs).rstrip(b" ")), g.fbits()))
+                    if S.frames[fi][0] and S.pts and r.random() < 0.3: L.append("smut %d ptn %s %s" % (fi, xhex(r.choice(S.pts).rstrip(b" ")), g.fbits()))
                 if r.random() < 0.3:
                     L.append("cmut %s addpt %s" % (v, point_str(g, g.simple_name(b"Z")))); L.append("dump")
                 if S.frames and r.random() < 0.5:
